@@ -117,6 +117,11 @@ def gen_name(rng, used):
 
 def gen_content(rng):
     r = rng.random()
+    if r < 0.03:
+        # around buffer sizes / io.Copy chunks
+        n = rng.choice([4095, 4096, 4097, 32767, 32768, 32769, 65536, 65537])
+        k = rng.randint(1, 250)
+        return "".join(chr((i * k) % 251) for i in range(n))
     if r < 0.6:
         return rng.choice(CONTENTS)
     if r < 0.8:
